@@ -55,7 +55,7 @@ Proof.
       cbn [andb negb] in Hn. apply negb_true_iff in Hn. subst c. cbn [orb] in Hl. destruct l; [reflexivity | discriminate Hl]. }
     subst l. rewrite app_nil_r.
     change ((10%N :: sp B) ++ cont_text B r) with (lf ++ sp B ++ cont_text B r).
-    apply col_blank; [exact Eb | left; reflexivity | lia | apply IH, Hr].
+    apply col_blank; [exact Eb | left; reflexivity | apply IH, Hr].
   - change ((10%N :: sp B ++ l) ++ cont_text B r) with (lf ++ (sp B ++ l) ++ cont_text B r). rewrite <- app_assoc.
     apply col_line; [exact Eb | left; reflexivity | apply IH, Hr].
 Qed.
